@@ -83,6 +83,21 @@ def hostile_requests(rng, model, full: bool) -> typing.List[typing.Tuple[str, by
                      b"\r\nNoColonLine\r\n: empty\r\nA:\r\n\r\n", b"\r\n"):
             for tls in (False, True):
                 add("http-malformed", line + hdrs, tls)
+    # request targets that a general URL parser reads differently from a plain split (network-location
+    # syntax after a leading //, unbalanced brackets, user info, ports, parameters, fragments)
+    for target in (b"//[", b"//[::1/umn/one.txt", b"//umn]/", b"//]", b"//[::1]/umn", b"//h/umn", b"//u:p@h:99999/umn", b"///umn",
+                   b"/umn;params", b"/umn#frag", b"/umn/one.txt#x?y", b"//h:abc/", b"/\\umn", b"http://[::1/umn", b"http://[/",
+                   b"*", b"/??", b"/umn?[", b"/[umn]", b"/umn/[one.txt", b"//[v1.x]/umn", b"//%5b/"):
+        for method in (b"GET", b"HEAD"):
+            for pre in (b"", b"/wap"):
+                if pre and not target.startswith(b"/"):
+                    continue
+                for tls in (False, True):
+                    add("http-target-url-syntax", method + b" " + pre + target + b" HTTP/1.0\r\nHost: " + H + b"\r\n\r\n", tls)
+    for target in (b"//[", b"//[::1/umn", b"//umn]/", b"/umn;p", b"/umn#f", b"//h/umn", b"/[umn"):
+        add("spartan-target-url-syntax", H + b" " + target + b" 0\r\n", False)
+        add("gopher-target-url-syntax", target + b"\r\n", False)
+        add("gopher-target-url-syntax", target + b"\t+\r\n", True)
     # Spartan malformations
     for line, body in ((b"h /a%0ab 0", b""), (b"h /a%0d%0a2 text/plain 0", b""), (b"h / 10", b"abc"),
                        (b"h / 3", b"abcdef"), (b"h  0", b""), (b"h / -1", b""), (b"h / 00", b""),
